@@ -96,6 +96,21 @@ def write_inputs(d: str, seed: int, n: int) -> List[Tuple[str, str, str]]:
         for tag, data in (("trunc", rawx[:k]), ("flip", rawx[:k] + bytes([rawx[k] ^ 0x5A]) + rawx[k + 1:])):
             p = os.path.join(d, f"d{i}-{tag}.xml")
             open(p, "wb").write(data); out.append((p, "xml", "damaged:" + tag))
+    # (round 6) SDK-written packages with File elements of every value form: a file that is in the package, an absolute URI, a
+    # network-path reference, no value - at the top and inside a collection, with a JSON and with an XML payload
+    import io as _io
+    for wj in (False, True):
+        fc = aasx.DictSupplementaryFileContainer()
+        name = fc.add_file("/aasx/files/manual.pdf", _io.BytesIO(b"%PDF-1.4 vf"), "application/pdf")
+        fls = lambda pre: [model.File(pre + "local", "application/pdf", name), model.File(pre + "uri", "application/pdf", "https://example.org/manual.pdf"),
+                           model.File(pre + "net", "application/pdf", "//host/share/manual.pdf"), model.File(pre + "none", "application/pdf", None)]  # noqa: E731
+        smf = model.Submodel("urn:vf:files", fls("f") + [model.SubmodelElementCollection("c", fls("g"))])
+        shf = model.AssetAdministrationShell(model.AssetInformation(global_asset_id="urn:g"), "urn:vf:files:aas",
+                                             submodel={model.ModelReference.from_referable(smf)})
+        pf = os.path.join(d, f"vfiles-{'json' if wj else 'xml'}.aasx")
+        with aasx.AASXWriter(pf) as w:
+            w.write_aas(shf.id, model.DictObjectStore([smf, shf]), fc, write_json=wj)
+        out.append((pf, "aasx", "valid"))
     # valid ZIP containers whose OPC parts are damaged one by one (content types stream, relationships, payload)
     import zipfile
     src_pkgs = [pth for pth, f, c in out if f == "aasx" and c == "valid"][:2]
@@ -734,6 +749,14 @@ def oracle(ctx: C.Ctx, cov: C.Coverage, n: Optional[int] = None, seed: Optional[
                     add(C.Failing(f"tool:{fmt}:{which}:status-not-worst", f"overall {r[2]} but steps {r[1]}", case))
                 if cat == "valid" and r[2] != "SUCCESS":
                     add(C.Failing(f"tool:{fmt}:{which}:valid-file-fails", f"SDK-written {fmt} file does not pass check_{which}: {r[1]}", case))
+            if cat == "valid" and fmt == "aasx":
+                # a file holds the same data as itself
+                r = run_check("aasx", "equivalence", path, path)
+                case = {"seed": seed, "file": os.path.basename(path), "fmt": fmt, "check": "equivalence", "category": cat}
+                if r[0] == "raise":
+                    add(C.Failing(f"tool:aasx:equivalence:raises:{r[1]}", f"check_aasx_files_equivalence(p, p) raised {r[1]}: {r[2]}", case))
+                elif r[2] != "SUCCESS":
+                    add(C.Failing("tool:aasx:equivalence:same-file-fails", f"an SDK-written package compared with itself: {r[1]}", case))
         # equivalence of files
         from basyx.aas import model
         from basyx.aas.adapter.json import write_aas_json_file
